@@ -44,6 +44,30 @@ impl Bdd {
     }
 }
 
+#[cfg(feature = "verif")]
+impl Bdd {
+    /// Like `new`, with independent sizes for the storage, its bucket array and the caches.
+    pub fn with_params(storage_bits: usize, bucket_bits: usize, cache_bits: usize) -> Self {
+        assert!(storage_bits <= 31, "Storage bits should be in the range 0..=31");
+
+        let mut storage = Storage::with_bucket_bits(storage_bits, bucket_bits);
+
+        // Allocate the terminal node:
+        let one = storage.alloc();
+        assert_eq!(one, 1); // Make sure the terminal node is (1).
+        let one = Ref::positive(one as u32);
+        let zero = -one;
+
+        Self {
+            storage: RefCell::new(storage),
+            cache: RefCell::new(Cache::new(cache_bits)),
+            size_cache: RefCell::new(Cache::new(cache_bits)),
+            zero,
+            one,
+        }
+    }
+}
+
 impl Default for Bdd {
     fn default() -> Self {
         Bdd::new(20)
